@@ -36,6 +36,53 @@ def oracle(log):
     return msgs
 
 
+def gen_arena_faults(rng):
+    """block-level histories on arenas over growing and fixed sources: upstream failures at arbitrary positions, then retries"""
+    src = rng.choice(['fixed', 'fixed', 'grow'])
+    cached = rng.choice(['cached', 'uncached'])
+    bs = rng.choice([64, 256, 1000, 4096])
+    lines = ['arena %s %s %d 0' % (cached, src, bs)]
+    nab = 0
+    for _ in range(rng.randint(8, 40)):
+        r = rng.random()
+        if r < 0.35:
+            if src == 'grow' and nab >= 10:
+                lines.append('db'); continue
+            lines.append('ab'); nab += 1
+        elif r < 0.6:
+            lines.append('db')
+        elif r < 0.75:
+            lines.append('shrink')
+        elif r < 0.9:
+            lines.append('fail 1'); lines.append('ab'); lines.append('ab'); nab += 1
+        else:
+            lines.append('q')
+    lines.append('destroy')
+    return '\n'.join(lines) + '\n'
+
+
+def arena_oracle(log):
+    """a refused block request leaves the arena as it was and able to serve the next request"""
+    msgs = []
+    prev = None; fixed = False
+    for ln in log.split('\n'):
+        parts = [x.strip() for x in ln.split('|')]
+        if len(parts) < 3:
+            continue
+        if parts[0].startswith('arena '):
+            fixed = ' fixed ' in parts[0]
+        st = dict(x.split('=') for x in parts[2].split() if '=' in x)
+        lhs, rhs = [x.strip() for x in parts[0].split('=', 1)]
+        if lhs == 'ab' and rhs.startswith('throw'):
+            if prev is not None and st != prev:
+                msgs.append('a refused allocate_block changed the arena: %s -> %s' % (prev, st))
+            injected = 'fail' in parts[1]
+            if not injected and prev is not None and not (fixed and int(prev.get('size', 0)) + int(prev.get('cache', 0)) >= 1):
+                msgs.append('allocate_block refused (%s) although the source can deliver a block: state %s' % (rhs, prev))
+        prev = st
+    return msgs
+
+
 def run(ctx):
     ctx.regen(); ctx.prove()
     thorough = ctx.tier == 'thorough'
@@ -71,6 +118,11 @@ def run(ctx):
         lines += ['an %d 1' % es, 'dall fwd', 'destroy']
         for c in cfgs:
             cases.append(dict(exe=ex_pool[c], script='\n'.join(lines) + '\n', replay_args=['pool'], tag=('edge', lines[0], c)))
+    ex_arena = {c: build.build_harness('arena', c, ['h_arena.cpp']) for c in cfgs}
+    for i in range(20 * n):
+        sc = gen_arena_faults(rng)
+        for c in cfgs:
+            cases.append(dict(exe=ex_arena[c], script=sc, replay_args=['arena'], tag=('arena', sc.split('\n')[0], c)))
     res = runner.run_cases(cases, rexe)
     ops = 0; div = 0; per = {}; throws = 0; nulls = 0; injected = 0
     for r in res:
@@ -83,6 +135,8 @@ def run(ctx):
         if mine:
             div += len(mine); ctx.tie_broken.append('correspondence: %s (%s cfg=%s)' % (mine[0][:300], tgt, c))
         msgs = oracle(r['log'])
+        if kind == 'arena':
+            msgs += arena_oracle(r['log'])
         if r['rc'] != 0:
             msgs.append('crashed instead of signalling a failure (exit status %d) after: %s' % (r['rc'], r['log'].strip().split('\n')[-1][:80]))
         if msgs and len(ctx.violations) < 3:
